@@ -167,3 +167,32 @@ Proof.
   pose proof (proj1 (forallb_forall _ _) Rb c (B c)) as Rc.
   apply eqb_prop; exact Rc.
 Qed.
+
+(* ---------------------------------------------------------------- link to the model's generic path *)
+(* the generic path of query_rw_info, on a written GP register operand whose table row has no explicit write mask, reports exactly the
+   masks the byte-level theorems are about (reported_gp with the value width = the register size) *)
+Lemma generic_op_gp_masks T mode64 row i (d : gp_dest) id :
+  let rt := gp_regtype d in
+  let dsc := nthN (t_op T) (nth i (rr_ops row) 0) d_op in
+  test (clear (or_flags dsc) fZExt) fW = true -> or_w dsc = 0 ->
+  let o := generic_op T (native_gp_size mode64) row i (OReg rt id) in
+  o_w o = o_w (reported_gp mode64 d (dest_size d)) /\ o_e o = o_e (reported_gp mode64 d (dest_size d)).
+Proof.
+  intros rt dsc HW Hw o. subst o. unfold generic_op. fold dsc.
+  change (is_reg_or_mem (OReg rt id)) with true. cbn [negb].
+  rewrite HW, Hw. cbn [andb]. rewrite N.eqb_refl.
+  destruct d, mode64; subst rt; cbn; split; reflexivity.
+Qed.
+
+Lemma generic_op_vec_masks T native row i rt id :
+  In rt [11; 12; 13] ->
+  let dsc := nthN (t_op T) (nth i (rr_ops row) 0) d_op in
+  test (clear (or_flags dsc) fZExt) fW = true -> or_w dsc = 0 -> test (or_flags dsc) fZExt = true ->
+  let o := generic_op T native row i (OReg rt id) in
+  o_w o = o_w (reported_vec (N.to_nat (reg_size rt))) /\ o_e o = o_e (reported_vec (N.to_nat (reg_size rt))).
+Proof.
+  intros Hrt dsc HW Hw HZ o. subst o. unfold generic_op. fold dsc.
+  change (is_reg_or_mem (OReg rt id)) with true. cbn [negb].
+  rewrite HW, Hw, HZ. cbn [andb]. rewrite N.eqb_refl.
+  destruct Hrt as [<- | [<- | [<- | []]]]; cbn; split; reflexivity.
+Qed.
